@@ -5,6 +5,8 @@ import math
 import numpy as np
 from hypothesis import strategies as st
 
+from ..core import sampled_from  # noqa: E402
+
 from .. import exact
 from .. import sphere as S
 from ..core import Failure
@@ -63,16 +65,16 @@ def _rot(v, axis, ang):
 
 @st.composite
 def unit_vec(draw):
-    how = draw(st.sampled_from(["any", "any", "any", "nearpole", "pole", "antimeridian", "equator", "prime"]))
+    how = draw(sampled_from(["any", "any", "any", "nearpole", "pole", "antimeridian", "equator", "prime"]))
     if how == "pole":
-        return [0.0, 0.0, draw(st.sampled_from([1.0, -1.0]))]
+        return [0.0, 0.0, draw(sampled_from([1.0, -1.0]))]
     if how == "nearpole":
-        lat = draw(st.sampled_from([1, -1])) * draw(st.floats(80, 89.999))
+        lat = draw(sampled_from([1, -1])) * draw(st.floats(80, 89.999))
         lon = draw(st.floats(-180, 180))
     elif how == "antimeridian":
-        lon, lat = draw(st.sampled_from([180.0, -180.0, 179.9999, -179.9999])), draw(st.floats(-85, 85))
+        lon, lat = draw(sampled_from([180.0, -180.0, 179.9999, -179.9999])), draw(st.floats(-85, 85))
     elif how == "prime":
-        lon, lat = draw(st.sampled_from([0.0, 1e-5, -1e-5])), draw(st.floats(-85, 85))
+        lon, lat = draw(sampled_from([0.0, 1e-5, -1e-5])), draw(st.floats(-85, 85))
     elif how == "equator":
         lon, lat = draw(st.floats(-180, 180)), 0.0
     else:
@@ -106,12 +108,12 @@ arc_len = st.one_of(st.floats(1e-4, math.radians(179.0)), st.floats(math.radians
 
 @st.composite
 def _case(draw, tier):
-    kind = draw(st.sampled_from(["within-on", "within-on", "within-off", "cross", "cross", "disjoint", "extreme"]))
+    kind = draw(sampled_from(["within-on", "within-on", "within-off", "cross", "cross", "disjoint", "extreme"]))
     if kind == "within-on":
-        plane = draw(st.sampled_from(PLANES))
-        t0 = draw(st.floats(-math.pi, math.pi) | st.sampled_from([0.0, math.pi / 2 - 0.3, math.pi - 0.2, -math.pi / 2 - 0.1, math.pi / 2]))
+        plane = draw(sampled_from(PLANES))
+        t0 = draw(st.floats(-math.pi, math.pi) | sampled_from([0.0, math.pi / 2 - 0.3, math.pi - 0.2, -math.pi / 2 - 0.1, math.pi / 2]))
         ln = draw(arc_len)
-        where = draw(st.sampled_from(["inside", "inside", "outside"]))
+        where = draw(sampled_from(["inside", "inside", "outside"]))
         if where == "inside":
             f = draw(st.floats(0.001, 0.999))
             tp = t0 + f * ln
@@ -121,15 +123,15 @@ def _case(draw, tier):
             tp = t0 + ln + f * gap
         a, b, p = plane_point(plane, t0), plane_point(plane, t0 + ln), plane_point(plane, tp)
         axis = False
-        if draw(st.sampled_from([False, False, True])):
+        if draw(sampled_from([False, False, True])):
             # arcs that start or end exactly on a coordinate axis (a pole, the equator): the
             # parameters are multiples of pi/2 and the rounding residue of cos/sin is snapped to 0
             axis = True
             h = math.pi / 2
             k0 = draw(st.integers(-2, 2))
-            la = draw(st.sampled_from([h, h, -h]) | st.floats(-3.0, 3.0).filter(lambda v: 1e-3 < abs(v) < math.pi - 1e-3))
+            la = draw(sampled_from([h, h, -h]) | st.floats(-3.0, 3.0).filter(lambda v: 1e-3 < abs(v) < math.pi - 1e-3))
             tq = draw(
-                st.sampled_from([k0 * h + la + math.pi, k0 * h + math.pi, k0 * h - h, k0 * h + la / 2, k0 * h + 2 * h + la / 2])
+                sampled_from([k0 * h + la + math.pi, k0 * h + math.pi, k0 * h - h, k0 * h + la / 2, k0 * h + 2 * h + la / 2])
                 | st.floats(-math.pi, math.pi)
             )
             snap = lambda v: [0.0 if abs(c) < 1e-15 else (math.copysign(1.0, c) if abs(abs(c) - 1.0) < 1e-15 else c) for c in v]
@@ -148,7 +150,7 @@ def _case(draw, tier):
         a = _along(x, d, -0.3 * ln)
         b = _along(x, d, 0.7 * ln)
         q = _along(x, d, draw(st.floats(-0.25, 0.65)) * ln)
-        off = draw(st.sampled_from([2e-6, 1e-5, 1e-3]) | st.floats(2e-6, 1.0)) * draw(st.sampled_from([1, -1]))
+        off = draw(sampled_from([2e-6, 1e-5, 1e-3]) | st.floats(2e-6, 1.0)) * draw(sampled_from([1, -1]))
         p = list(S.normalize(tuple(math.cos(off) * q[i] + math.sin(off) * n[i] for i in range(3))))
         return {"kind": "within", "sub": "off-plane", "a": a, "b": b, "p": p, "quarter": draw(st.integers(0, 3)), "theta": draw(st.floats(0, 2 * math.pi))}
     if kind in ("cross", "disjoint"):
@@ -157,9 +159,9 @@ def _case(draw, tier):
         sep = draw(st.floats(math.radians(1.0), math.radians(179.0)))
         e1, e2 = _frame(x)
         d2 = [math.cos(a1 + sep) * e1[i] + math.sin(a1 + sep) * e2[i] for i in range(3)]
-        small = st.floats(1e-5, math.radians(89)) | st.sampled_from([1e-5, 2e-5, 1e-4, 1e-3])
+        small = st.floats(1e-5, math.radians(89)) | sampled_from([1e-5, 2e-5, 1e-4, 1e-3])
         s1, t1, s2, t2 = (draw(small) for _ in range(4))
-        if draw(st.sampled_from([False, False, True])):
+        if draw(sampled_from([False, False, True])):
             # long arcs whose crossing lies more than 90 degrees from an end point (total length stays < 179 degrees)
             s1 = draw(st.floats(math.radians(91), math.radians(170)))
             t1 = draw(st.floats(1e-4, math.radians(178) - s1))
